@@ -18,9 +18,12 @@ import OpusProofs.KernelsNsq
   only (no element dropped, duplicated or taken from a neighbouring address, for every length and lag).  Read at
   `α = ℤ` they are what the correspondence run checks bit for bit against the real kernels on the exact domain.
 
-  NOT proved here (see UNPROVED / NOT_COVERED in tools/props/C15.py): bit-identity of silk_NSQ_sse4_1,
-  silk_NSQ_del_dec_sse4_1/_avx2 and silk_VAD_GetSA_Q8_sse4_1 with their C twins, and op_pvq_search_sse2 (no Lean
-  model; differential search only); rounding-error bounds of the float kernels in IEEE arithmetic.
+  (ii-b) integer pieces of the quantiser / VAD kernels (OpusModel/KernelsNsq.lean): `silk_nsq_scale_states[_sse4_1]` as a
+  whole, the VAD sub-frame energy loop, `silk_sar_round_smulww`.
+
+  NOT proved here (see UNPROVED / NOT_COVERED in tools/props/C15.py): bit-identity of the sample loops of
+  silk_NSQ_del_dec_sse4_1/_avx2 and of the rest of silk_VAD_GetSA_Q8_sse4_1 with their C twins, and op_pvq_search_sse2
+  (no Lean model; differential search only); rounding-error bounds of the float kernels in IEEE arithmetic.
 -/
 namespace OpusProps.C15
 open Opus.Kernels Opus.Gen
@@ -110,18 +113,56 @@ example : vqWMatEC_sse ⟨[131072, 1000, 2000, 3000, 4000, 0, 131072, 0, 0, 0, 0
       [0, 0, 70000, 0, 0], [0, 0, 10, 0, 0, 0, 0, 64, 0, 0], [10, 64], [20, 30], 80, 100, 2⟩
     = ⟨-4920, 23493, 1, some 64⟩ := by decide +kernel
 
-/-- PARTIAL (one primitive only; the full statement `silk_NSQ_sse4_1 = silk_NSQ_c`, `silk_NSQ_del_dec_sse4_1/_avx2 =
-    silk_NSQ_del_dec_c` on every reachable state is NOT proved, see UNPROVED in tools/props/C15.py): the SIMD idiom with
-    which the SSE4.1 quantisers rescale the input and the long-term shaping state — four exact 64-bit products, even
-    ones shifted right, odd ones shifted left, blended — yields `silk_SMULWW(v, g)` in every lane, for all 32-bit
-    operands, including the 32-bit wrap of the C macro.  This definition is transcribed by hand and has no
-    correspondence run of its own (the idiom is inline in the kernels); the kernels as a whole are compared with the C
-    code by the whole-codec search. -/
-theorem nsq_scale_lanes_eq_smulww_partial (v g : Int) (odd : Bool) :
-    wrap32 (smulwwLaneSse v g odd) = smulww v g := smulwwLaneSse_eq v g odd
+/-! ### (ii-b) integer pieces of the NSQ / VAD kernels -/
+
+/-- `silk_nsq_scale_states_sse4_1` (silk/x86/NSQ_sse4_1.c) equals `silk_nsq_scale_states` (silk/NSQ.c) as a whole, for
+    ALL inputs: every sub-frame / memory length (also not a multiple of four and shorter than four), every 32-bit state
+    value, gain and previous gain, every lag, signal type and re-whitening flag.  All of `x_sc_Q10`, `sLTP_shp_Q14`,
+    `sLTP_Q15`, `sLF_AR_shp_Q14`, `sDiff_shp_Q14`, `sLPC_Q14`, `sAR2_Q14`, `prev_gain_Q16` agree.  The two files differ
+    only in the two vectorised loops; there the `_mm_mul_epi32` / `_mm_srli_epi64` / `_mm_slli_epi64` /
+    `_mm_blend_epi16(0xCC)` idiom yields `silk_SMULWW` in every lane, 32-bit wrap of the C macro included, and blocks
+    of four plus scalar tail cover exactly the index range of the portable loop. -/
+theorem nsq_scale_states_sse_eq_c (inp : NsqScIn) (st : NsqSc) :
+    nsqScaleStatesSse inp st = nsqScaleStatesC inp st ∧
+    (∀ v g : Int, ∀ odd : Bool, wrap32 (smulwwLaneSse v g odd) = smulww v g) ∧
+    vecSmulwwSse = vecSmulwwC :=
+  ⟨nsqScaleStatesSse_eq inp st, smulwwLaneSse_eq, vecSmulwwSse_eq⟩
 
 example : smulww (-70000) 123456789 = -131866078 ∧ wrap32 (smulwwLaneSse (-70000) 123456789 true) = -131866078 ∧
     wrap32 (smulwwLaneSse (-70000) 123456789 false) = -131866078 ∧ smulww 2147483647 2147483647 = -65536 := by decide
+/- a range of 7 starting at index 1 of a 10-element array: one block of four, a tail of three, ends untouched;
+   and a whole call with a gain change (state really rescaled). -/
+example : vecSmulwwSse 98304 [1, 2, 3, 4, 5, 6, 7, 8, 9, 10] 1 8 = [1, 3, 4, 6, 7, 9, 10, 12, 9, 10] := by decide +kernel
+example : (nsqScaleStatesSse ⟨5, 4, [1000, -2000, 3000, -4000, 5000], [7, 8, 9, 10, 11, 12, 13, 14, 15], 2, 1, 15565, 131072, 2, false, 5, 6⟩
+      ⟨[10, 20, 30, 40, 50, 60, 70, 80], [1, 2, 3, 4, 5, 6, 7, 8, 9], [], 100, 200,
+       [1, 1, 1, 1, 1, 1, 1, 1, 1, 1, 1, 1, 1, 1, 1, 1], [2, 2, 2, 2, 2, 2, 2, 2, 2, 2, 2, 2, 2, 2, 2, 2, 2, 2, 2, 2, 2, 2, 2, 2], 65536⟩).shp
+    = [10, 20, 14, 19, 24, 29, 70, 80] := by decide +kernel
+
+/-- The sub-frame energy accumulation of `silk_VAD_GetSA_Q8_sse4_1` (blocks of eight through `_mm_srai_epi16`,
+    `_mm_madd_epi16`, `_mm_add_epi32`, two horizontal adds, scalar tail) equals the portable loop of
+    `silk_VAD_GetSA_Q8_c` for every int16 sample sequence of every length, including the 32-bit wrap of the accumulator
+    (the C comment excludes overflow only for lengths ≤ 128); both equal the sum of the squares of `x >> 3` modulo 2^32. -/
+theorem vad_energy_sse_eq_c (x : Nat → Int) (n : Nat) :
+    vadEnergySse x n = vadEnergyC x n ∧ vadEnergyC x n = wrap32 (sqSum x 0 n) :=
+  ⟨vadEnergySse_eq x n, vadEnergyC_eq x n⟩
+
+example : vadEnergySse (fun i => (-32768 : Int) + 100 * i) 19 = 301622089 ∧
+    vadEnergyC (fun _ => -32768) 200 = -939524096 := by decide +kernel
+
+/-- `silk_sar_round_smulww` of silk/x86/NSQ_del_dec_avx2.c as committed in 50e8da86 is the C kernel's
+    `silk_RSHIFT_ROUND(silk_SMULWW(a, b), bits)` for all 32-bit `a`, `b` and every shift count; and the 64-bit form it
+    replaced agrees with the C expression exactly when `(a*b) >> 16` fits 32 bits (for the two shift counts used, 8
+    and 14) — i.e. it differed precisely where the C code wraps. -/
+theorem sar_round_smulww_avx2_eq_c (a b : Int) (bits : Nat) :
+    sarRoundSmulwwAvx2 a b bits = sarRoundSmulwwC a b bits ∧
+    ((-2147483648 ≤ wrap32 a * wrap32 b / 65536 ∧ wrap32 a * wrap32 b / 65536 < 2147483648) →
+      sarRoundSmulww64 a b 8 = sarRoundSmulwwC a b 8 ∧ sarRoundSmulww64 a b 14 = sarRoundSmulwwC a b 14) :=
+  ⟨sarRound_avx2_eq_c a b bits, sarRound64_eq_c_of_fits a b⟩
+
+/- the pre-fix 64-bit form differs on an overflowing input (Xq_Q14 near the 32-bit limit times a gain): the C code
+   wraps to -2, the 64-bit form returns the true, large quotient — int16 output -2 versus saturated 32767. -/
+example : sarRoundSmulwwC 2147483647 26345472 8 = -2 ∧ sarRoundSmulww64 2147483647 26345472 8 = 3372220414 ∧
+    sarRoundSmulwwAvx2 2147483647 26345472 8 = -2 := by decide +kernel
 
 /-! ### (iii) float reduction kernels: lane decomposition = sequential sum, every length -/
 
